@@ -116,6 +116,10 @@ pub struct Case {
     /// is re-submitted afterwards is signed by the new set
     #[serde(default)]
     pub rotation_after: u8,
+    /// the application is the token service itself (it uses the same interface): the delivery is a hub message
+    /// minting a deployed token, from the hub chain and hub address
+    #[serde(default)]
+    pub its_app: bool,
 }
 
 const DAY: u32 = 17280;
@@ -127,7 +131,7 @@ impl Property for C16 {
         "C16"
     }
     fn rule(&self) -> &'static str {
-        "proptest single cases: app (the shipped example / a minimal harness app that calls the interface's validate_message helper and aborts on error) x delivery (chain, id, source address from small pools incl. empty strings; payload 0..600 bytes) x at most one deviation (never approved; approved for another app / for the account-kind address with the app's 32 bytes / another payload / source address / id / chain; delivered twice; additionally approved for the other app; approval re-submitted, or the id re-approved with other content, after delivery; approved under another split of the same characters between chain and id, for 8 separators; approval and delivery differing only in letter case or a trailing space of chain / id / source address, in either direction) x 0..150 days passing between approval and delivery and between the first delivery and whatever is tried afterwards, optionally with a signer rotation (ordinary or operator-bypass) after the first delivery, later approvals being signed by the new set, and optionally with a third party calling the gateway's validate_message for the delivered id in between (ledger sequence and clock advanced; temporary entries of that age are gone). All 2x32 app x deviation combinations are also enumerated as fixed cases. Oracle: the app's effect (its executed event / counter) and the gateway's transition to executed happen iff the gateway held a matching unexecuted approval naming this app; otherwise the delivery fails, nothing is emitted and the ledger snapshot is identical. non-trivial = a deviation is present; distinct by Debug hash"
+        "proptest single cases: app (the shipped example / a minimal harness app that calls the interface's validate_message helper and aborts on error / in a quarter of the cases the token service itself, delivered a hub message that mints a deployed token) x delivery (chain, id, source address from small pools incl. empty strings; payload 0..600 bytes) x at most one deviation (never approved; approved for another app / for the account-kind address with the app's 32 bytes / another payload / source address / id / chain; delivered twice; additionally approved for the other app; approval re-submitted, or the id re-approved with other content, after delivery; approved under another split of the same characters between chain and id, for 8 separators; approval and delivery differing only in letter case or a trailing space of chain / id / source address, in either direction) x 0..150 days passing between approval and delivery and between the first delivery and whatever is tried afterwards, optionally with a signer rotation (ordinary or operator-bypass) after the first delivery, later approvals being signed by the new set, and optionally with a third party calling the gateway's validate_message for the delivered id in between (ledger sequence and clock advanced; temporary entries of that age are gone). All 2x32 app x deviation combinations are also enumerated as fixed cases. Oracle: the app's effect (its executed event / counter) and the gateway's transition to executed happen iff the gateway held a matching unexecuted approval naming this app; otherwise the delivery fails, nothing is emitted and the ledger snapshot is identical. non-trivial = a deviation is present; distinct by Debug hash"
     }
     fn fixed_is_exhaustive(&self) -> Option<&'static str> {
         Some("app x deviation matrix (2 x 32) enumerated completely with one fixed delivery; deliveries sampled")
@@ -137,21 +141,24 @@ impl Property for C16 {
     }
     fn strategy(&self, _tier: Tier) -> BoxedStrategy<Case> {
         (any::<bool>(), prop::sample::select(DEVS.to_vec()), 0u8..3, 0u8..3, 0u8..3, 0u16..600, any::<u64>(), prop::sample::select(DAYS.to_vec()), prop::sample::select(DAYS.to_vec()))
-            .prop_map(|(example_app, dev, chain, id, src, payload_len, seed, days_before, days_after)| Case { example_app, dev, chain, id, src, payload_len, seed, days_before, days_after, rotation_after: (seed % 5).min(2) as u8 % 3 })
+            .prop_map(|(example_app, dev, chain, id, src, payload_len, seed, days_before, days_after)| Case { example_app, dev, chain, id, src, payload_len, seed, days_before, days_after, rotation_after: (seed % 5).min(2) as u8 % 3, its_app: seed % 4 == 3 })
             .boxed()
     }
     fn fixed_cases(&self, _tier: Tier) -> Vec<Case> {
         let mut v = vec![];
         for example_app in [true, false] {
             for dev in DEVS {
-                v.push(Case { example_app, dev, chain: 0, id: 0, src: 0, payload_len: 10, seed: 1, days_before: 0, days_after: 0, rotation_after: 0 });
+                v.push(Case { example_app, dev, chain: 0, id: 0, src: 0, payload_len: 10, seed: 1, days_before: 0, days_after: 0, rotation_after: 0, its_app: false });
+                if example_app {
+                    v.push(Case { example_app, dev, chain: 0, id: 0, src: 0, payload_len: 10, seed: 1, days_before: 0, days_after: 0, rotation_after: 0, its_app: true });
+                }
                 if matches!(dev, Dev::None | Dev::DeliveredTwice | Dev::ResubmittedApprovalAfterDelivery | Dev::ReapprovedOtherContentAfterDelivery) {
                     for r in [1u8, 2] {
-                        v.push(Case { example_app, dev, chain: 0, id: 0, src: 0, payload_len: 10, seed: 1, days_before: 0, days_after: 0, rotation_after: r });
+                        v.push(Case { example_app, dev, chain: 0, id: 0, src: 0, payload_len: 10, seed: 1, days_before: 0, days_after: 0, rotation_after: r, its_app: false });
                     }
                     for d in [31u16, 61, 150] {
-                        v.push(Case { example_app, dev, chain: 0, id: 0, src: 0, payload_len: 10, seed: 1, days_before: 0, days_after: d, rotation_after: 0 });
-                        v.push(Case { example_app, dev, chain: 0, id: 0, src: 0, payload_len: 10, seed: 1, days_before: d, days_after: 0, rotation_after: 0 });
+                        v.push(Case { example_app, dev, chain: 0, id: 0, src: 0, payload_len: 10, seed: 1, days_before: 0, days_after: d, rotation_after: 0, its_app: false });
+                        v.push(Case { example_app, dev, chain: 0, id: 0, src: 0, payload_len: 10, seed: 1, days_before: d, days_after: 0, rotation_after: 0, its_app: false });
                     }
                 }
             }
@@ -160,22 +167,52 @@ impl Property for C16 {
     }
 
     fn run(&self, case: &Case, cx: &mut Cx) -> Result<(), String> {
-        let env = new_env();
-        let set = simple_set(3);
-        let gw = deploy_gateway(&env, [8; 32], 0, 0, &[set.clone()]).map_err(|e| format!("setup: {}", e))?;
+        let itsw = if case.its_app { Some(crate::itsw::build_its_world("stellar", "hub-address", 2)) } else { None };
+        let env = match &itsw {
+            Some(w) => w.env.clone(),
+            None => new_env(),
+        };
+        let set = match &itsw {
+            Some(w) => w.set.clone(),
+            None => simple_set(3),
+        };
+        let gw = match &itsw {
+            Some(w) => Gw { client: axelar_gateway::AxelarGatewayClient::new(&env, &w.gw.id), id: w.gw.id.clone(), owner: w.gw.owner.clone(), operator: w.gw.operator.clone(), domain: w.gw.domain },
+            None => deploy_gateway(&env, [8; 32], 0, 0, &[set.clone()]).map_err(|e| format!("setup: {}", e))?,
+        };
         let gas = deploy_gas(&env);
         let example_id = env.register(Example, (&gw.id, &gas.id));
         let mini_id = env.register(MiniApp, (&gw.id,));
         let mini = MiniAppClient::new(&env, &mini_id);
-        let (app, other_app) = if case.example_app { (example_id.clone(), mini_id.clone()) } else { (mini_id.clone(), example_id.clone()) };
+        let (mut app, other_app) = if case.example_app { (example_id.clone(), mini_id.clone()) } else { (mini_id.clone(), example_id.clone()) };
         let stranger = Address::generate(&env);
+        let mut its_payload: Option<Vec<u8>> = None;
+        let mut its_token_id = [0u8; 32];
+        if let Some(w) = &itsw {
+            w.trust("ethereum");
+            let (tid, _) = w.deploy_token(&w.users[0], &[7; 32], b"Sixteen", b"SXT", 6, 0, None).map_err(|e| format!("setup: {}", e))?;
+            let inner = crate::oracle::AMsg::Transfer {
+                token_id: tid,
+                source: vec![1, 2],
+                dest: crate::itsw::address_xdr(&env, &stranger),
+                amount: crate::oracle::word_u128(1 + (case.seed % 50) as u128),
+                data: vec![],
+            };
+            its_token_id = tid;
+            its_payload = Some(crate::itsw::ItsWorld::receive_payload("ethereum", &inner));
+            app = w.its.id.clone();
+            cx.label("app_is_the_token_service");
+        }
         let chains = ["ethereum", "", "a"];
         let ids = ["0xabc-1", "", "b"];
         let srcs = ["0xsender", "", "c"];
-        let chain = chains[case.chain as usize % 3];
+        let chain = if case.its_app { crate::itsw::HUB_CHAIN } else { chains[case.chain as usize % 3] };
         let id = ids[case.id as usize % 3];
-        let src = srcs[case.src as usize % 3];
-        let payload = seeded_bytes(case.seed, case.payload_len as usize);
+        let src = if case.its_app { "hub-address" } else { srcs[case.src as usize % 3] };
+        let payload = match its_payload {
+            Some(p) => p,
+            None => seeded_bytes(case.seed, case.payload_len as usize),
+        };
         let mk = |dest: &Address, chain: &str, id: &str, src: &str, payload: &[u8]| Message {
             source_chain: sstr(&env, chain),
             message_id: sstr(&env, id),
@@ -223,7 +260,9 @@ impl Property for C16 {
             cx.nontrivial();
         }
         cx.label(&format!("{:?}", case.dev));
-        cx.label(if case.example_app { "example_app" } else { "mini_app" });
+        if !case.its_app {
+            cx.label(if case.example_app { "example_app" } else { "mini_app" });
+        }
 
         let shifted_id: String = match case.dev {
             Dev::ApprovedSeparatorShift(k) => format!("p{}{}", SEPS[k as usize % SEPS.len()], id),
@@ -260,8 +299,12 @@ impl Property for C16 {
             ensure_p!(ok, "delivery of an approved message to the app failed");
             ensure_p!(app_events(ev0) >= 1, "the app showed no effect for an approved delivery");
             ensure_p!(executed(), "gateway does not report the message executed");
-            if !case.example_app {
+            if !case.example_app && !case.its_app {
                 ensure_p!(mini.count() == count0 + 1, "app counter not incremented");
+            }
+            if case.its_app {
+                let t = soroban_sdk::token::TokenClient::new(&env, &itsw.as_ref().unwrap().its.client.token_address(&BytesN::from_array(&env, &its_token_id)));
+                ensure_p!(t.balance(&stranger) == 1 + (case.seed % 50) as i128, "the token service did not credit the recipient named in the delivered message");
             }
             // a delivered message cannot be delivered again, however much later
             if case.days_after > 0 {
